@@ -8,11 +8,12 @@ lon/lat -> unit vector.  Units are decided by the same comparison (the
 reference carries the deg->rad factors for the requested units).
 """
 import ast
+import os
 
 import sympy as sp
 
 from vcheck import symx
-from vcheck.core import PyRepo, AnalysisError, call_name, dotted_name, kwarg, norm, walk_no_nested
+from vcheck.core import PyRepo, call_name, dotted_name, kwarg, norm
 
 MANIFEST = dict(
     text="Formula conformance by symbolic normal forms (not numerical testing, not a behavioural proof): the chord-based and "
@@ -20,9 +21,11 @@ MANIFEST = dict(
          "for every units option; the resulting terms are compared (sympy as normaliser) with the stated definitions carrying the "
          "unit factors of the requested option: 2*asin(|p1-p2|/2), pi - asin|p1 x p2| on the near-antipodal branch whose threshold on "
          "|p1-p2|^2 must lie in [3, 3.9999], acos(clip(sin d1 sin d2 + cos d1 cos d2 cos(dra), -1, 1)); every asin/acos argument is "
-         "two-sided clipped or sits in the branch that bounds it; the exact-zero override for identical inputs is present after unit "
-         "conversion; symmetry under exchange of the two points is decided symbolically; a per-point mask must not index the component "
-         "axis of a stacked array; the single-argument where() must be applied to ndmin=1-normalised operands (scalar inputs).",
+         "two-sided clipped or sits in the branch that bounds it; the exact-zero override for identical inputs is a piece of the result "
+         "(in the output unit) that no other piece overrides; symmetry under exchange of the two points is decided symbolically; a "
+         "per-point mask must not index the component axis of a stacked array; rank provenance from the raw arguments: single-argument "
+         "where()/nonzero() needs a condition reached by ndmin=1-normalised values and .any()/.all() a numpy-typed receiver when the "
+         "inputs are scalars (boolean-mask subscripts work for every rank).",
     note="Not decided: the 1e-11 / 2e-6 degree accuracy, finiteness under rounding. Trusted: sympy's normaliser (a failure to "
          "normalise two equal forms would be a false alarm; benign-twin self-tests guard the idioms in use), numpy element-wise semantics.",
     technique="static analysis: abstract interpretation over a symbolic term domain with algebraic normal-form comparison (sympy as normaliser), AST rank/shape rules",
@@ -40,26 +43,30 @@ def xyz(ra, dec, units):
     return sp.cos(r) * sp.cos(d), sp.sin(r) * sp.cos(d), sp.sin(d)
 
 
-def pieces(e):
-    """[(value, cond)] of a Piecewise (or [(e, True)])"""
-    if isinstance(e, sp.Piecewise):
-        return [(v, c) for v, c in e.args]
-    return [(e, sp.true)]
-
-
-def strip_factor(e):
-    """split a leading numeric factor: e = k * rest"""
-    k, rest = e.as_coeff_Mul()
-    return k, rest
-
-
 # rules that keep their verdict however the code is laid out (decided by term equality, effect analysis or dominance over
 # resolved calls); every other rule of this check is a template rule (vcheck.core.Check.obt)
 SEMANTIC = ('R08.2', 'R08.4', 'R08.5', 'R08.6', 'R08.7')
 
 
+def source_repo():
+    """the sources as they are written.  Every rule of this check is decided on data flow (term equality, effect analysis, rank
+    provenance) and looks only at the names of the public functions and of their parameters, so nothing here needs the locals renamed
+    back to the baseline's names; the rename-undo can merge two locals that are live at the same time into one name (a new temporary
+    whose defining statement has the shape of another local's, e.g. `cosphi = cos(phi)` next to `z = sin(phi)`), which changes the
+    function the term domain evaluates."""
+    old = os.environ.get("VCHECK_NO_RENAME")
+    os.environ["VCHECK_NO_RENAME"] = "1"
+    try:
+        return PyRepo()
+    finally:
+        if old is None:
+            os.environ.pop("VCHECK_NO_RENAME", None)
+        else:
+            os.environ["VCHECK_NO_RENAME"] = old
+
+
 def run(chk):
-    repo = PyRepo()
+    repo = source_repo()
     chk.set_templates(repo, semantic=SEMANTIC)
     chk.explanation = MANIFEST["text"]
     chk.trusted = ["sympy normaliser", "numpy element-wise semantics", "CPython ast"]
@@ -164,6 +171,24 @@ def split_identity(lv, syms):
     return zero, rest
 
 
+def _has_priority(zero_leaf, syms):
+    """nothing overrides the exact-zero piece for identical inputs: it is the first piece, or every piece listed before it is
+    ruled out when the two points are set equal (e.g. the near-antipodal condition |p1-p2|^2 >= t is false for p1 == p2)"""
+    ra1, dec1, ra2, dec2 = syms
+    i, _, path = zero_leaf
+    if len(path) == 1:
+        return i == 0
+    same = {ra2: ra1, dec2: dec1}
+    for c, pol in path[:-1]:
+        try:
+            cs = sp.simplify(c.xreplace(same))
+        except Exception:
+            return False
+        if cs not in (sp.true, sp.false) or bool(cs) != pol:
+            return False
+    return True
+
+
 def _threshold(cond, dsq):
     """cond as `dsq >= t` / `dsq > t` (any spelling: swapped sides, sqrt of both sides): returns t, or None when the condition is not a
     lower bound on the squared chord"""
@@ -175,12 +200,14 @@ def _threshold(cond, dsq):
     num = [a for a in sp.Add.make_args(d) if a.is_number]
     t = -sp.Add(*num)
     x = d + t                       # x >= t
-    if not x.free_symbols:
-        return None
+    if not x.free_symbols or x.could_extract_minus_sign():
+        return None                 # `t' >= dsq`: an upper bound
     if symx.equal(x, dsq)[0]:
         return t
     if t.is_nonnegative and symx.equal(x, sp.sqrt(dsq))[0]:
         return t ** 2
+    if cond.rhs.is_number and num and symx.equal(cond.lhs, dsq)[0]:
+        return cond.rhs             # the squared chord written with a constant term of its own
     return None
 
 
@@ -203,7 +230,7 @@ def check_chord(chk, fi, tag, r, syms, uin, uout):
     chk.ob("R08.3", tag + "::exact-zero-for-identical-inputs", len(zero) >= 1, fi.where(),
            "identical inputs give exactly 0 (override piece: %s)" % (zero[0][2][-1][0] if zero else "MISSING"))
     if zero:
-        chk.ob("R08.3", tag + "::override-applied-last", zero[0][0] == 0 and len(zero[0][2]) == 1, fi.where(),
+        chk.ob("R08.3", tag + "::override-applied-last", _has_priority(zero[0], syms), fi.where(),
                "the override has priority over every other piece of the result and is an exact 0 in the output unit")
     if any(v.has(sp.Piecewise) for v, _ in rest) or len(rest) > 2 or not rest:
         chk.ob("R08.4", tag + "::two-branch-structure", None, fi.where(),
@@ -222,7 +249,8 @@ def check_chord(chk, fi, tag, r, syms, uin, uout):
     chk.ob("R08.4", tag + "::two-branch-structure", True, fi.where(), "chord branch with a near-antipodal override branch")
     # which piece is the near-antipodal one: the one selected where the squared chord is large
     ca, cb = _pos(*pa[0]), _pos(*pb[0])
-    ta, tb = _threshold(ca, dsq), _threshold(cb, dsq)
+    ta = _threshold(ca, dsq)
+    tb = _threshold(cb, dsq) if ta is None else None
     if ta is None and tb is not None:
         (crossv, thr), chordv = (vb, tb), va
     else:
@@ -282,7 +310,7 @@ def check_cosine(chk, fi, r, syms):
         chk.ob("R08.4", tag + "::law-of-cosines", None, fi.where(), "the result of the symbolic evaluation is not a term: %r" % (r,))
         return
     zero, rest = split_identity(lv, syms)
-    ok = len(zero) >= 1 and zero[0][0] == 0 and len(zero[0][2]) == 1
+    ok = len(zero) >= 1 and _has_priority(zero[0], syms)
     chk.ob("R08.3", tag + "::exact-zero-for-identical-inputs", ok, fi.where(), "identical inputs give exactly 0 (override piece: %s)" % (zero[0][2][-1][0] if zero else "MISSING"))
     if len(rest) != 1 or rest[0][1]:
         chk.ob("R08.4", tag + "::law-of-cosines", None, fi.where(), "unexpected structure %s" % str(r)[:200])
@@ -599,12 +627,14 @@ class RankEval:
         if isinstance(e, ast.Subscript):
             return self.subscript(e, env, fi)
         if isinstance(e, ast.Attribute):
-            base = self.ev(e.value, env, fi) if not dotted_name(e) or (isinstance(e.value, ast.Name) and e.value.id in env) else _UNK
-            if e.attr in ("T", "real", "imag") and base.elts is None:
-                return _V(base.nd if base.nd is None or base.nd >= 0 else None, base.mask)
             d = dotted_name(e)
-            if d and self.repo.resolve_name(fi.module, d) in ("numpy.pi", "math.pi", "numpy.e", "math.e", "numpy.inf", "numpy.nan"):
-                return _V(_RAW)
+            if d and d.split(".")[0] not in env:
+                if self.repo.resolve_name(fi.module, d) in ("numpy.pi", "math.pi", "numpy.e", "math.e", "numpy.inf", "numpy.nan"):
+                    return _V(_RAW)
+                return _UNK
+            base = self.ev(e.value, env, fi)
+            if e.attr in ("T", "real", "imag") and base.elts is None and base.nd is not None and base.nd >= 0:
+                return _V(base.nd, base.mask)
             return _UNK
         if isinstance(e, (ast.ListComp, ast.GeneratorExp)):
             return self.comprehension(e, env, fi)
@@ -649,7 +679,8 @@ class RankEval:
             return -1, False
         v = self.ev(ix, env, fi)
         if v.mask:
-            return (0 if v.nd is not None and v.nd >= 1 else (1 if v.nd is not None else None)), True      # x[0-d bool] adds an axis
+            # a boolean mask of m >= 1 dimensions replaces m axes by one; a 0-d / python bool adds an axis
+            return (None if v.nd is None else (1 - v.nd if v.nd >= 1 else 1)), True
         if v.elts is not None:
             return 0, False              # a list of indices: fancy indexing along this axis
         if v.nd is None:
@@ -680,19 +711,17 @@ class RankEval:
             delta = None if (delta is None or d is None) else delta + d
         if masked:
             self.mask_subscripts += 1
-        if base.nd is None or delta is None:
-            return _V(1 if masked and delta is not None and base.nd is None and False else None)
-        if base.nd < 0:
+        if base.nd is None or delta is None or base.nd < 0:
             return _UNK
-        return _V(max(0, base.nd + delta) if not masked else max(1, base.nd + delta))
+        return _V(max(1 if masked else 0, base.nd + delta))
 
     def _site(self, fi, node, operand_node, kind, need, v):
         key = (self.stack[0] if self.stack else fi.qualname, kind, norm(operand_node))
         nd = v.nd if v.elts is None else _as_array_nd(v)
+        sev = lambda n: 0 if (n is not None and n < need) else (1 if n is None else 2)
         old = self.sites.get(key)
-        if old is not None:
-            if old["nd"] is None or (nd is not None and nd >= old["nd"]):
-                return                  # keep the worst context
+        if old is not None and sev(old["nd"]) <= sev(nd):
+            return                      # a helper reached in several contexts: keep the worst one
         self.sites[key] = {"fi": fi, "node": node, "operand": operand_node, "kind": kind, "need": need, "nd": nd}
 
     def call(self, c, env, fi):
@@ -733,9 +762,7 @@ class RankEval:
                 sh = pos[0]
                 if sh.elts is not None and not sh.anylen:
                     return _V(len(sh.elts))
-                if sh.elts is None and (sh.nd == _RAW or (sh.nd is None and not isinstance(c.args[0], (ast.Tuple, ast.List)))):
-                    return _V(1) if sh.nd == _RAW else _UNK
-                return _UNK
+                return _V(1) if (sh.elts is None and sh.nd == _RAW) else _UNK
             if nm in ("arange", "linspace", "logspace", "flatnonzero", "ravel"):
                 return _V(1)
             if nm in _REDUCTIONS and pos:
@@ -757,7 +784,7 @@ class RankEval:
             binds.update({k: v for k, v in kws.items() if k in params})
             return self.run(tgt, binds)
         if isinstance(f, ast.Name) and not shadow:
-            if f.id in ("float", "int", "bool", "len", "str", "repr", "round") :
+            if f.id in ("float", "int", "bool", "len", "str", "repr", "round"):
                 return _V(_RAW)
             if f.id == "abs" and pos:
                 return _V(_broadcast(pos[:1]))
@@ -771,7 +798,7 @@ class RankEval:
                 return _V(None, elts=[_V(None, elts=list(t)) for t in zip(*[p.elts for p in pos])])
             return _UNK
         if isinstance(f, ast.Attribute):
-            recv = self.ev(f.value, env, fi) if not (d and full and full != d) else _UNK
+            recv = self.ev(f.value, env, fi)
             if recv.elts is not None:
                 return _UNK
             if nm in ("any", "all") and not c.args:
